@@ -241,7 +241,7 @@ def validate_traces(traces, maxn=8):
 # ------------------------------------------------------------------------------------------------
 # planted cases of Krylov.tla  ->  numpy / npc objects
 # ------------------------------------------------------------------------------------------------
-PL_INVARIANTS = ['BlockCertificate', 'VectorCertificate', 'CaseRight']
+PL_INVARIANTS = ['BlockCertificate', 'VectorCertificate', 'JordanCertificate', 'CaseRight']
 
 
 def pl_constants(**kw):
@@ -337,7 +337,7 @@ class Built:
         npc = self.npc
         x = self.v if x is None else np.asarray(x)
         dt = dtype or (self.dtype if np.all(np.asarray(x).imag == 0) else np.complex128)
-        arr = x.real.astype(dt) if dt == np.float64 else x.astype(dt)
+        arr = x.astype(dt) if dt == np.complex128 else x.real.astype(dt)
         # the charge of the sector fixes qtotal even if x vanishes there
         q0 = self.case['q0']
         b0 = [i for i, b in enumerate(self.case['blocks']) if b['q'] == q0][0]
